@@ -174,6 +174,8 @@ def _corrupt(kw, path, value):
 
 
 PROFILES = []
+BURST = 160          # distinct cache keys per burst operation (more than any bound a cache is likely to have)
+BURST_PROFILES = ("mapper-dict", "mapper-camel-nested", "fast-serializable")
 
 
 def profile(name, src, top, val, bad, setf, racy_fields=(), racy_keys=(), fast=False, deser_kw=None, ser_kw=None, tags=(), doc=None):
@@ -256,6 +258,18 @@ profile(
     dict(color=("@enum", "Color", ["RED", "GREEN", "BLUE"][t % 3]), kind="pqr"[t % 3], level=_n(t)),
     bad=lambda kw, t: _corrupt(kw, [["kind", "color"][t % 2]], "zz"),
     setf=lambda t: ("level", _n(t, 7)))
+
+# -- several differently named optional fields that receive an explicit None (the None option of every Optional
+#    must not be one object shared between fields)
+profile(
+    "optional-none",
+    "class K(Structure):\n    nick: Optional[String]\n    age: Optional[Integer]\n    user_id: Optional[Integer]\n"
+    "    name: String\n    tags: AnyOf[Set[String], None]\n",
+    "K",
+    val=lambda t: dict(name=_s(t), nick=None, age=_n(t, 1), user_id=None, tags={_s(t, 2)}) if t % 2 == 0 else
+    dict(name=_s(t), nick=_s(t, 1), age=None, user_id=_n(t, 3), tags=None),
+    bad=lambda kw, t: _corrupt(kw, [["name", "age"][t % 2]], [0.5]),
+    setf=lambda t: (["nick", "age", "user_id"][t % 3], None))
 
 # -- trusted deserialization of a "simple" class (cached simplicity level + cached flat mapper)
 profile(
@@ -526,6 +540,18 @@ def build_op(p, ns, twin, spec, t):
         inst = top(**realise(p["val"](t), ns))
         desc["kwargs"] = repr(p["val"](t))
         return (lambda: ser(inst, arg)), desc
+    if opkind == "burst":
+        # a burst of serializations of ONE instance, each with its own ad-hoc override mapper (a service that builds
+        # its mappers per request): every call has its own cache key, so `arg` calls fill any bounded cache
+        inst = top(**realise(p["val"](t), ns))
+        fld = sorted(top.get_all_fields_by_name())[0]
+        desc["kwargs"] = repr(p["val"](t))
+        desc["override_mappers"] = "{%r: %r + '_<thread>_<i>'} for i in range(%d)" % (fld, fld, arg)
+
+        def op():
+            out = [serialize(inst, mapper={fld: "%s_%d_%d" % (fld, t, i)}) for i in range(arg)]
+            return [out[0], out[-1], len(out)]
+        return op, desc
     if opkind == "construct_serialize":
         kw = p["val"](t)
         desc["kwargs"] = repr(kw)
@@ -536,7 +562,7 @@ def build_op(p, ns, twin, spec, t):
 def cold_ok(p, spec):
     """can this operation be prepared without warming the class state it is meant to meet cold?"""
     opkind, _ = spec
-    if opkind in ("serialize", "setattr") and p["fast"]:
+    if opkind in ("serialize", "setattr", "burst") and p["fast"]:
         return False        # preparing the instance installs the FastSerializable serializer
     return True
 
@@ -566,6 +592,7 @@ def pairs(tier):
             ((("construct_serialize", "Serializer"), ("deserialize", True)), "cw"),
             ((("deserialize", False), ("deserialize", False)), "c"),
             ((("construct", True), ("construct", False)), "c"),
+            ((("serialize", "serialize"), ("burst", BURST)), "w"),
         ]
     return base
 
@@ -585,6 +612,8 @@ def tasks(tier, rnd, chunk=450):
             continue
         for pr, states in pairs(tier):
             if quick and "ser-only" in p["tags"] and not any("serialize" in s_[0] for s_ in pr):
+                continue
+            if any(s_[0] == "burst" for s_ in pr) and p["name"] not in BURST_PROFILES:
                 continue
             for cold in (True, False):
                 if ("c" if cold else "w") not in states:
@@ -901,23 +930,16 @@ def replay(obj):
     sch = LineSched()
     twin = declare(p)
     cold = obj.get("cold", True)
-    warm_ns = None
-    if not cold:
-        warm_ns = declare(p)
-        for t, sp in enumerate(spec):
-            try:
-                build_op(p, warm_ns, twin, sp, t + 3)[0]()
-            except Exception:  # noqa
-                pass
-        for api in SER_APIS:
-            try:
-                build_op(p, warm_ns, twin, ("construct_serialize", api), 4)[0]()
-                build_op(p, warm_ns, twin, ("roundtrip", True), 4)[0]()
-            except Exception:  # noqa
-                pass
+
+    def prepare():
+        reset_containers(obj.get("reset"))
+        return None if cold else _warm(p, twin, spec)
+    state = {"ns": prepare()}
 
     def fresh():
-        ns = declare(p) if cold else warm_ns
+        if obj.get("reset"):
+            state["ns"] = prepare()         # the schedule was found from exactly this state
+        ns = declare(p) if cold else state["ns"]
         return [build_op(p, ns, twin, sp, t)[0] for t, sp in enumerate(spec)]
     seq = []
     for i in range(len(spec)):
@@ -1122,16 +1144,16 @@ class _LogDict(dict):
 
     def __contains__(self, k):
         r = dict.__contains__(self, k)
-        self._ev("hit" if r else "miss")
+        self._ev("check1" if r else "check0")
         return r
 
     def __getitem__(self, k):
         try:
             v = dict.__getitem__(self, k)
         except KeyError:
-            self._ev("miss")
+            self._ev("read0")
             raise
-        self._ev("hit")
+        self._ev("read1")
         return v
 
     def get(self, k, d=None):
@@ -1262,7 +1284,11 @@ def cache_traces(ca):
         ret = returns.get(fid)
         out = []
         for kind, line, value, rep0 in evs:
-            if kind == "hit":
+            if kind in ("check0", "check1"):
+                out.append("(EvCheck %s)" % ("true" if kind == "check1" else "false"))
+            elif kind in ("read0", "read1"):
+                out.append("(EvRead %s)" % ("true" if kind == "read1" else "false"))
+            elif kind == "hit":
                 if out and out[-1] == "EvHit":
                     continue
                 out.append("EvHit")
@@ -1430,3 +1456,82 @@ def class_entry_indices(sa):
                 scalars += 1
         out[p["name"]] = (ids, scalars, unknown)
     return out
+
+
+def reset_containers(names):
+    """empty the named module-level caches (so that a schedule does not depend on what the process did before)"""
+    for nm in names or []:
+        r = _resolve_container({"name": nm})
+        if r is not None and hasattr(r[2], "clear"):
+            try:
+                r[2].clear()
+            except Exception:  # noqa
+                pass
+
+
+def cache_removal_replay(entry, read_line, clear_line):
+    """The model's REMOVAL witness realised on the implementation.  The reader (an operation whose key is already
+    cached) is stopped when it is about to execute the line of its subscript read, i.e. after its membership test
+    hit; a second thread performs a burst of operations with distinct cache keys, long enough to reach the
+    removal line (found by doubling the burst until that line is executed); the reader resumes.
+    -> (deviation dict or None, schedules tried, note)"""
+    sch = LineSched()
+    path = os.path.realpath(os.path.join(core.REPO, entry["file"]))
+    specs = [("serialize", "serialize"), ("serialize", "Serializer"), ("construct_serialize", "serialize"), ("roundtrip", True)]
+    tried = 0
+    note = "no operation reaches the read line %d on its hit path" % read_line
+    for p in PROFILES:
+        if "kind" in p["tags"] or p["fast"]:
+            continue
+        twin = declare(p)
+
+        for sa in specs:
+            try:
+                reset_containers([entry["name"]])
+                ns = _warm(p, twin, (sa,))
+                op, _ = build_op(p, ns, twin, sa, 0)
+                o, nl, _, _, rec = sch.run([op], [], record=True)
+            except Exception:  # noqa
+                continue
+            ks = [i + 1 for i, r in enumerate(rec[0]) if os.path.realpath(r[0]) == path and r[1] == read_line]
+            if not ks:
+                continue
+            seq_a = outcome_of(o[0])
+            # how long a burst reaches the removal line?
+            m, reached = 48, False
+            while m <= 1600 and not reached:
+                try:
+                    reset_containers([entry["name"]])
+                    ns1 = _warm(p, twin, (sa, ("burst", m)))
+                    ob, _, _, _, recb = sch.run([build_op(p, ns1, twin, ("burst", m), 1)[0]], [], record=True)
+                except Exception:  # noqa
+                    break
+                reached = any(os.path.realpath(r[0]) == path and r[1] == clear_line for r in recb[0])
+                if not reached:
+                    m *= 2
+            if not reached:
+                note = "a burst of up to %d distinct keys never executes the removal line %d" % (m // 2, clear_line)
+                continue
+            seq_b = outcome_of(ob[0])
+            pair = (sa, ("burst", m))
+            for k in ks[:2]:
+                try:
+                    reset_containers([entry["name"]])
+                    ns2 = _warm(p, twin, pair)
+                    built = [build_op(p, ns2, twin, s_, t) for t, s_ in enumerate(pair)]
+                    segs = [(0, k), (1, None), (0, None)]
+                    o2, _, executed, stood, _ = sch.run([b[0] for b in built], segs, timeout=60.0)
+                except Exception:  # noqa
+                    continue
+                tried += 1
+                outs = [outcome_of(x) for x in o2]
+                seq = [seq_a, seq_b]
+                bad = [i for i in range(2) if not same_outcome(outs[i], seq[i])]
+                if bad:
+                    return ({"stream": "lines", "profile": p["name"], "ops": [list(s_) for s_ in pair], "cold": False,
+                             "reset": [entry["name"]],
+                             "segments": [list(s_) for s_ in segs], "executed": executed,
+                             "stood": [[s_[0], os.path.relpath(s_[1], sch.root), s_[2], s_[3]] for s_ in stood],
+                             "threads": bad, "observed": outs, "sequential": seq, "inputs": [b[1] for b in built]}, tried, "")
+            note = "%d witness schedules replayed (burst of %d keys), no deviating outcome" % (tried, m)
+    return None, tried, note
